@@ -108,6 +108,10 @@ def judge(run, g, s, r):
         hist = " ".join("%s(%s)" % (st["op"], st["arg"]) for st in s["steps"])
         run.diverge("process-crash", "the server process crashed while replaying: %s\n%s" % (hist, r["crash"][:1500]), replay)
         return "strict"
+    if r.get("stuck"):
+        hist = " ".join("%s(%s)" % (st["op"], st["arg"]) for st in s["steps"])
+        run.diverge("open-gets-no-headers", "a new listening stream could not be opened: %s; schedule %s" % (r["stuck"], hist), replay)
+        return "strict"
     if r.get("unrealised"):
         return "unrealised"
     for o in r["obs"]:
